@@ -264,6 +264,29 @@ def stage_slice_sweep(ctx: Ctx):
     import fst
     from lib.progs import CORPUS
     rng = ctx.rng
+    # whitespace put in front of a trailing line comment ('offset' mode): the comment is part of the cached bloc of every statement that ends on that line
+    for src in ['def f():\n  if a:\n    x = 1  # c\ny = 2\n', 'class K:\n  def m(self):\n    while q:\n      try:\n        z  # c\n      finally:\n        w  # d\nt = 0  # e\n',
+                'if a:\n  pass\nelif b:\n  with c: d  # e\n', 'for i in j:\n  k; l  # m\nelse:\n  n  # o\n']:
+        lines = src.split('\n')
+        for ln, l in enumerate(lines):
+            if '#' not in l:
+                continue
+            col = l.index('#')
+            for new, c0 in (('   ', col), ('', col - 1), ('  ', col - 2)):
+                root = fst.FST(src, 'exec')
+                for g in root.walk(True):
+                    for name in CACHED_QUERIES:
+                        q(g, name)
+                try:
+                    root.put_src(new, ln, c0, ln, col, 'offset')
+                except Exception:
+                    continue
+                ctx.tick(('sweep-cmt', src, ln, new), 'sweep:trailing-comment-offset')
+                bad = compare_with_fresh(root, rng, 0)
+                if bad:
+                    ctx.violation(f'query|{bad.get("query", bad["why"][:30])}|{bad.get("node", "")}|sweep:comment-offset',
+                                  'a query on the edited tree answers differently from the same query on a tree freshly built from its source',
+                                  {'start_src': src, 'how': 'put_src offset before trailing comment', 'line': ln, 'new': new, 'src_now': root.src, **bad})
     for src in SWEEP_PROGS + [CORPUS[-1]]:
         try:
             probe = fst.FST(src, 'exec')
